@@ -279,7 +279,12 @@ def check_multi(col, t, seed, pipeline):
             ss.mpe("a", sel_freq=req, order=order, rtol=1e-4)
             setups.append(ss)
         ps = MultiSetup_PoSER(ref_ind=reflist, single_setups=setups, names=["ssi"])
-        res = ps.merge_results()["ssi"]
+        merged = ps.merge_results()
+        if not isinstance(merged, dict) or "ssi" not in merged:
+            col.violation("MultiSetup_PoSER.merge_results/e2e/no_result_for_group", f"PoSER after per-setup SSI: merge_results returned "
+                          f"{type(merged).__name__} without the group 'ssi'; layouts {lays}", rep)
+            return
+        res = merged["ssi"]
         bad = None
         if len(res.Fn) != m or np.abs(np.asarray(res.Fn) - np.array(req)).max() > 1e-6 * max(req):
             bad = ("frequencies", f"merged Fn {res.Fn}, global system {req}")
